@@ -73,7 +73,7 @@ def box_mesh(rng):
 
 
 def gen_mesh(rng):
-    kind = rng.choice(["box", "soup", "fan", "sliver", "coplanar", "coplanar"])
+    kind = rng.choice(["box", "soup", "fan", "sliver", "coplanar", "coplanar", "degenerate"])
     if kind == "box":
         verts, faces = box_mesh(rng)
     elif kind == "soup":
@@ -91,6 +91,14 @@ def gen_mesh(rng):
     elif kind == "sliver":
         verts = [[0.0, 0.0, 0.0], [10.0, 0.0, 0.0], [5.0, 1e-3, 0.0], [5.0, -1.0, 2.0]]
         faces = [[0, 1, 2], [0, 3, 1]]
+    elif kind == "degenerate":
+        # an ordinary triangle and, away from it, a face without area (collinear dyadic vertices) or of micrometre size
+        verts = [[0.0, 0.0, 0.0], [2.0, 0.0, 0.0], [0.0, 2.0, 0.0]]
+        if rng.random() < 0.6:
+            verts += [[6.0, 0.0, 1.0], [6.5, 0.5, 1.0], [7.0, 1.0, 1.0]]
+        else:
+            verts += [[6.0, 0.0, 1.0], [6.0 + 1e-8, 0.0, 1.0], [6.0, 1e-8, 1.0]]
+        faces = [[0, 1, 2], [3, 4, 5]]
     else:
         verts = [[float(i), float(j), 0.0] for j in range(4) for i in range(4)]
         faces = []
@@ -109,6 +117,8 @@ def gen_mesh(rng):
     qs.append([a + rng.uniform(-0.2, 0.2) for a in onf])
     qs.append(list(verts[f[0]]))
     qs.append([(a + b) / 2 + rng.uniform(-0.3, 0.3) for a, b in zip(verts[f[0]], verts[f[1]])])
+    if kind == "degenerate":
+        qs += [[6.5 + rng.uniform(-1, 1), 0.5 + rng.uniform(-1, 1), 1.0 + rng.uniform(-1, 1)] for _ in range(3)]
     if kind == "coplanar":
         # level with the flat open grid, beyond its rim and beyond a corner: the closest point is on the border and the offset
         # lies in the plane of the faces
@@ -249,10 +259,23 @@ def oracle(c, r):
             qs = max(scale, max(abs(x) for x in q))
             what = "closest point to %r on a mesh of %d faces" % (q, len(faces))
             best = min(tri_dist(q, *t) for t in tris)
-            if o["surf"].get("panic"):
-                yield ("mesh-panic", what + ": surf_closest_to panicked")
-                continue
             p = o["closest"]
+            if any(math.isnan(x) for x in p):
+                yield ("mesh-point-panic", what + ": point_closest_to panicked")
+                continue
+            if o["surf"].get("panic"):
+                # a surface point needs a normal: when the nearest face has none (zero area, or legs of 1e-8) surf_closest_to unwraps None
+                near = min(range(len(tris)), key=lambda i: tri_dist(q, *tris[i]))
+                a, b, cc = tris[near]
+                cr = cross([y - x for x, y in zip(a, b)], [y - x for x, y in zip(a, cc)])
+                if math.sqrt(dot(cr, cr)) <= 2.3e-16:
+                    yield ("surf-closest-degenerate-face", what + ": surf_closest_to panicked; the nearest face %r has no normal" % (tris[near],))
+                else:
+                    yield ("mesh-panic", what + ": surf_closest_to panicked")
+                d = math.dist(q, p)
+                if abs(d - best) > 1e-9 * qs:
+                    yield ("mesh-not-nearest", what + ": point_closest_to reports a point at distance %r, exhaustive minimum %r" % (d, best))
+                continue
             d = math.dist(q, p)
             if abs(d - best) > 1e-9 * qs:
                 yield ("mesh-not-nearest", what + ": reported point at distance %r, exhaustive minimum %r" % (d, best))
@@ -275,7 +298,11 @@ def oracle(c, r):
             ok = False
             for t, raw in zip(tris, r["raw_normals"]):
                 nn = math.sqrt(dot(raw, raw))
-                if nn > 0 and on_tri(p, t[0], t[1], t[2], 1e-9 * qs) and math.dist([x / nn for x in raw], sp["n"]) < 1e-9:
+                if nn > 2.3e-16 and on_tri(p, t[0], t[1], t[2], 1e-9 * qs) and math.dist([x / nn for x in raw], sp["n"]) < 1e-9:
+                    ok = True
+                    break
+                # a face without area has no normal of its own: any unit vector is accepted for a closest point on it
+                if nn <= 2.3e-16 and tri_dist(p, *t) <= 1e-9 * qs and abs(math.sqrt(dot(sp["n"], sp["n"])) - 1) < 1e-9:
                     ok = True
                     break
             if not ok:
